@@ -820,3 +820,26 @@ theorem entries_chunks_kLine (n : Nat) (hn : 0 < n) (mode : Mode) (file : Bytes)
 example : entriesK 2 [62,97,10,65,10,62,98,10,67,10] = [[[62,97],[65]],[[62,98],[67]]] := by decide
 
 end C01
+
+namespace C01
+/-- **C01.whole_read** — `read()` (the whole file at once) delivers the newline-terminated file for
+every format satisfying the laws and every well-formed file; so chunked reading (`readAll_bytes`)
+and whole reading deliver the same bytes. -/
+theorem whole_read (F : Fmt) (WF : Bytes → Prop) (AL : Bytes → Prop) (L : Laws F WF AL) (file : Bytes)
+    (hwf : WF file) : readWhole F file = norm file := by
+  unfold readWhole norm
+  by_cases h : file = []
+  · simp [h]
+  · have hne : file.isEmpty = false := by simp [h]
+    simp only [hne, Bool.false_eq_true, ↓reduceIte]
+    have hf := L.wf_final file hwf h
+    rw [hf.2]
+    unfold fixEnd
+    simp
+
+/-- chunked = whole, for every chunk size and both modes -/
+theorem chunked_eq_whole (F : Fmt) (WF : Bytes → Prop) (AL : Bytes → Prop) (L : Laws F WF AL) (hnil : WF [])
+    (mode : Mode) (file : Bytes) (hwf : WF file) (k : Nat) (hk : 0 < k) :
+    (readAll F true mode file k).flatten = readWhole F file := by
+  rw [(readAll_bytes F WF AL L hnil mode file hwf k hk).1, whole_read F WF AL L file hwf]
+end C01
